@@ -72,8 +72,10 @@ def detector_points(ctx, coords, name=None, optics=None):
 
 @op('image')
 def image(ctx, shape, spacing, seed, dtype='float64', optics=None, name=None,
-          channels=None, offset=1.0, scale=0.1, z=0):
-    """A random image with metadata (data from a *local* RandomState)."""
+          channels=None, offset=1.0, scale=0.1, z=0, origin=None):
+    """A random image with metadata (data from a *local* RandomState).
+    ``origin`` = (i0, j0): the image is a region of a larger frame and keeps
+    the frame's pixel coordinates (i0 + i) * spacing."""
     from holopy.core.metadata import data_grid
     rs = np.random.RandomState(seed)
     shp = list(shape)
@@ -87,8 +89,17 @@ def image(ctx, shape, spacing, seed, dtype='float64', optics=None, name=None,
                       min(np.iinfo(dtype).max, 60000))
     arr = arr.astype(dtype)
     kw = optics_kwargs(ctx, optics)
-    return data_grid(arr, spacing=val(ctx, spacing), name=name,
-                     extra_dims=extra, z=z, **kw)
+    im = data_grid(arr, spacing=val(ctx, spacing), name=name,
+                   extra_dims=extra, z=z, **kw)
+    if origin:
+        sp = val(ctx, spacing)
+        sp = list(sp) if isinstance(sp, (list, tuple, np.ndarray)) \
+            else [sp, sp]
+        # exactly the coordinates the frame's pixels have
+        fx = np.arange(origin[0] + shape[0]) * sp[0]
+        fy = np.arange(origin[1] + shape[1]) * sp[1]
+        im = im.assign_coords(x=fx[origin[0]:], y=fy[origin[1]:])
+    return im
 
 
 # --------------------------------------------------------------- scatterers
